@@ -10,7 +10,8 @@ CLAIMED = {
         text="TLC model-checks the writer+parser+encoder design (MC_Wire: every well-formed token stream within the "
              "bound, every map order) and enumerates the messages; the harness builds each through the public API with "
              "all 22 kinds and boundary contents, encodes and parses it with the real code; TLC validates every "
-             "recorded round trip against Trace_Wire (identity modulo one-element sets, payload intact).",
+             "recorded round trip against Trace_Wire (identity modulo one-element sets, payload intact). Histories: encode-add-encode, "
+             "and every round trip preceded by a parse abandoned with an error on the same thread.",
         note="Bounded: layered streams <= 7/8 tokens (2 names, 2 member names, 2 kind classes, nesting <= 2) plus "
              "flat 22-kind layer; contents sampled with boundary bias. Trusted: TLC, harness projection.",
         technique="TLA+ model checking (TLC) + spec-generated cases replayed on the code + TLC trace validation",
@@ -86,7 +87,7 @@ CLAIMED["C08"] = dict(
 CLAIMED["C15"] = dict(
     text="TLC checks a step-cost counter of the parser design against a linear bound on every stream of the bound "
          "(refuted at once with the pinned clone-on-close); the harness measures allocation (counting allocator) and "
-         "instructions executed (valgrind/callgrind) of the real parsers on 22 input families doubling to 1/4 MiB, each "
+         "instructions executed (valgrind/callgrind) of the real parsers on 24 input families doubling to 1/4 MiB, each "
          "parse in a child process with a time budget, and TLC validates the measurements against Trace_Cost (growth "
          "between doubling sizes: allocation ratio <= 3, work ratio <= 2.5; generous absolute bounds).",
     note="Growth decides; absolute bounds are ~40x above what is measured; wall clock only as back-stop; a child that exceeds its "
